@@ -329,7 +329,15 @@ class Engine(
                     return select.reapply_skip(after=operation)
             case Slice():
                 return select.reapply_skip(slice=select.slice.then(operation))
-            case Sort():
+            case Sort(terms=terms):
+                if select.is_compound and not all(isinstance(t.expression, ColumnReference) for t in terms):
+                    # ORDER BY on a UNION can only name its output columns, so
+                    # sorting by a general expression needs a subquery.
+                    if select.has_sort and not select.has_slice:
+                        raise RelationalAlgebraError(
+                            f"Applying {operation} to relation {select} will not preserve row order."
+                        )
+                    return Select.apply_skip(select, sort=operation)
                 if select.has_slice:
                     # There was a Slice upstream, which needs to be applied
                     # before this Sort via a nested subquery (which means we
